@@ -488,15 +488,14 @@ def datePart (op : String) (us : Int) : R Val :=
 
 def pad (w : Nat) (n : Int) : String := pad0 w (toString n.toNat)
 
-/-- `parsed.isoformat()[:-3] + 'Z'` of a naive datetime (aggregate.py:811-812) -/
+/-- `parsed.isoformat(timespec='milliseconds') + 'Z'` of a naive datetime: always
+    `YYYY-MM-DDTHH:MM:SS.mmmZ`, the microseconds cut to milliseconds -/
 def isoZ (us : Int) : String :=
   let ymd := civilFromDays (dayOf us)
   let rem := usOfDay us
-  let base := pad 4 ymd.1 ++ "-" ++ pad 2 ymd.2.1 ++ "-" ++ pad 2 ymd.2.2 ++ "T" ++
-    pad 2 (rem / 3600000000) ++ ":" ++ pad 2 (rem / 60000000 % 60)
-  let micro := rem % 1000000
-  if micro == 0 then base ++ "Z"       -- '…:SS' loses its last three characters
-  else base ++ ":" ++ pad 2 (rem / 1000000 % 60) ++ "." ++ pad 3 (micro / 1000) ++ "Z"
+  pad 4 ymd.1 ++ "-" ++ pad 2 ymd.2.1 ++ "-" ++ pad 2 ymd.2.2 ++ "T" ++
+    pad 2 (rem / 3600000000) ++ ":" ++ pad 2 (rem / 60000000 % 60) ++ ":" ++
+    pad 2 (rem / 1000000 % 60) ++ "." ++ pad 3 (rem % 1000000 / 1000) ++ "Z"
 
 /-! ### operator bodies on evaluated operands -/
 
